@@ -123,9 +123,10 @@ def _d(x):
 
 
 def _fresh(ns, scn):
-    fl, _ = world.make_fluid(ns, scn["fluids"][0], ns.repo_root)
+    lib = ns.fresh()
+    fl, _ = world.make_fluid(lib, scn["fluids"][0], ns.repo_root)
     o = scn["object"]
-    return getattr(ns, o["cls"])(int(o["nx"]), float(o["pf"]), float(o["pi"]), fl if o.get("fluid") is not None else None)
+    return getattr(lib, o["cls"])(int(o["nx"]), float(o["pf"]), float(o["pi"]), fl if o.get("fluid") is not None else None)
 
 
 def _try(fn):
